@@ -35,29 +35,26 @@ theorem trace_wellformed_partial (G : LGraph) (cfg : Cfg) (ρ : VNode → List C
   · unfold run at hcoh; rw [hcoh] at h; exact absurd h (by simp)
   · exact h.2
 
-/-- HEADLINE for the current tree (since /repo commit 7ab5f0c the FreeVarNode case checks that the
-closure on top of ClosureTrace is a closure of the free variable's function; `closureCheck = true`
-is the model's default): the property's last sentence holds at FULL strength — for every linked
-graph, map-iteration order, fuel, entry argument and initial `prevEdgeInfos`, every reported trace
-ends at the entry argument and consecutive nodes are related by an in-edge or an inter-procedural
-link (`Linked`). -/
+/-- About the PROPOSED repair (/verif/fixes/C03_closure_trace_mismatch.patch; applied as 7ab5f0c,
+reverted by 63e2416 — `closureCheck = true` is not the model's default): with the closure on top
+of ClosureTrace used only if it is a closure of the free variable's function, the property's last
+sentence holds at FULL strength — for every graph, order, fuel, entry and initial `prevEdgeInfos`. -/
 theorem trace_wellformed_fixed (G : LGraph) (cfg : Cfg) (hfix : cfg.closureCheck = true)
     (ρ : VNode → List Cand → List Cand) (hρ : ∀ v l c, c ∈ ρ v l → c ∈ l)
     (fuel entry : Nat) (pei0 : List (Nat × Int)) :
     ∀ t ∈ (run G cfg ρ fuel entry pei0).traces, TraceWF (Linked G) entry t :=
   trace_wellformed_partial G cfg ρ hρ fuel entry pei0 (loop_coherent_fixed G cfg ρ hfix fuel _ rfl)
 
-/-- the same, as the specification's own statement `TracesWellformed`, for the default configurations
-(eager / on-demand) of the current code -/
-theorem traces_wellformed_current (G : LGraph) (onDemand skipBL : Bool) :
-    TracesWellformed G { onDemand := onDemand, skipBoundLabels := skipBL } :=
+/-- the same, as the specification's own statement `TracesWellformed`, for the repaired variant -/
+theorem traces_wellformed_repaired (G : LGraph) (onDemand skipBL : Bool) :
+    TracesWellformed G { onDemand := onDemand, skipBoundLabels := skipBL, closureCheck := true } :=
   fun ρ hρ fuel entry pei0 => trace_wellformed_fixed G _ rfl ρ hρ fuel entry pei0
 
 /-- What the oracle evaluates on every REAL trace is exactly the specification. -/
 theorem real_trace_criterion (G : LGraph) (entry : Nat) (t : List Nat) :
     traceWFB G entry t = true ↔ TraceWF (Linked G) entry t := traceWFB_iff G entry t
 
-/-! ### Negation witness: the full statement was false on the code before repair 7ab5f0c
+/-! ### Negation witness: the full statement is false on the current code
 
 `main`: `x := "a"; A := func(){ x = g() }; A(); sink(x)`,  `g`: `z := src(); B := func() string { return z }; return B()`.
 Backwards from `sink(x)`: bound var `x` of `A` → free var `x` of `A`'s body (closure trace `[A]`)
@@ -83,7 +80,7 @@ def Gjump : LGraph :=
 /-- the reported trace that jumps from `z` (free variable of `B`) to `x` (bound by `A`) -/
 def jumpTrace : List Nat := [9, 8, 7, 6, 5, 4, 2, 9, 8, 7, 6, 5, 4, 2, 0]
 
-/-- the code before repair 7ab5f0c -/
+/-- the current code (no closure-trace check) -/
 def unrepaired : Cfg := { closureCheck := false }
 
 theorem jump_reported : jumpTrace ∈ (run Gjump unrepaired idOrder 100 0).traces := by decide
@@ -102,8 +99,8 @@ theorem traces_wellformed_false : ¬ TracesWellformed Gjump unrepaired := by
 /-- … and the hypothesis of `trace_wellformed_partial` is what fails there. -/
 example : (run Gjump unrepaired idOrder 100 0).incoherent = true := by decide
 
-/-- on the same graph the current code (repair applied) reports well-formed traces only -/
-example : ∀ t ∈ (run Gjump {} idOrder 100 0).traces, traceWFB Gjump 0 t = true := by decide
+/-- on the same graph the repaired variant reports well-formed traces only -/
+example : ∀ t ∈ (run Gjump { closureCheck := true } idOrder 100 0).traces, traceWFB Gjump 0 t = true := by decide
 
 /-! ### Non-vacuity -/
 
